@@ -427,7 +427,7 @@ func execC34(t *testing.T, scAny any, keepLog bool) *Outcome {
 							sd.paused = true
 							s.Sleep(time.Duration(sc.PauseMs[side]) * time.Millisecond)
 							lastProgress = s.Now()
-							setRDL(sd, lastProgress.Add(base), true)
+							setRDL(sd, lastProgress.Add(base), false) // (the read deadline only: a write deadline set now would replace the 5 s guard of a CloseWrite/Close in progress)
 						}
 					}
 					if ne, ok := err.(interface{ Timeout() bool }); err != nil && ok && ne.Timeout() && sd.spurious == "" && !sd.localClose {
@@ -644,7 +644,16 @@ func execC34(t *testing.T, scAny any, keepLog bool) *Outcome {
 			}
 			// Close does not wait for a stalled Write: it either interrupts the writers or sends its alert under a 5 s guard
 			// (a Read that is answering a KeyUpdate / renegotiating holds the write side legitimately: such runs are exempt)
-			if !kuOps && sd.closeDur > 6*time.Second {
+			// (an application that moves the write deadline itself may replace that guard: exempt as well)
+			movesWdl := false
+			for _, tk := range sc.Tasks {
+				for _, op := range tk.Ops {
+					if tk.Side == side && (op.Op == "setdl" || op.Op == "setwdl") {
+						movesWdl = true
+					}
+				}
+			}
+			if !kuOps && !movesWdl && sd.closeDur > 6*time.Second {
 				o.Fail = Failf("c34.close_slow", "Close blocked for longer than its own 5 s guard (it waited for a stalled Write instead of interrupting it)", "side %d: Close took %v", side, sd.closeDur)
 				break
 			}
